@@ -415,7 +415,7 @@ pub fn run(ctx: &Ctx) -> Report {
     }
     Report {
         stats: total,
-        rule: "inputs within the stated bounds (UTF-8, <= 4 KiB, <= 64 of '(' and '!'): (1) grammar-aware texts over the whole vocabulary in layout/argument-spelling variants; (2) every prefix and every single-character mutation (delete, duplicate, replace by each of 24 special characters) of a sample of those; (3) every argument string of length <= 3 over a 20-symbol alphabet after each argument-taking keyword; (4) numeric boundary strings and long octal runs; (5) the member/non-member texts of C05 and random format strings; nesting at the bound; (6) before every eighth input, a history of calls on the worker's own thread: 18 fixed inputs that are rejected by the lexer, rejected by the grammar with parentheses open, or accepted with a warning, mixed with four texts of the slice in a seed-dependent order - each call of the history is judged like any other input, and a failure that needs earlier calls is reported as the shortest history that reproduces it on a fresh thread (replay kind \"history\"). Oracle, per input, in a child process, in the dev and in the release build: parse returns; on Err, Display and Debug of the error return; on Ok, compile returns; on Ok, scheme(\"/\"), scheme(hostile path) and io_map() return. A panic, abort or fatal signal is a failure; so is an input that has no answer after 20 s of CPU time of its process (confirmed in a process of its own; the slowest input of the corpus takes `max_input_cpu_s`); expiry of the watchdog of the whole run is inconclusive (exit 2). Non-trivial: parsing got past the first token (Ok, or an error that names a keyword). Distinct: by input text.".into(),
+        rule: "inputs within the stated bounds (UTF-8, <= 4 KiB, <= 64 of '(' and '!'): (1) grammar-aware texts over the whole vocabulary in layout/argument-spelling variants; (2) every prefix and every single-character mutation (delete, duplicate, replace by each of 24 special characters) of a sample of those; (3) every argument string of length <= 3 over a 20-symbol alphabet after each argument-taking keyword; (4) numeric boundary strings and long octal runs; (5) the member/non-member texts of C05 and random format strings; nesting at the bound, with an operator at every level and the inner group on either side, accepted and rejected variants; every code point of the basic plane (and a stride through the others) as argument of the string-processing primaries; every arrangement of brackets and pattern characters up to length 4 as pattern, attribute name and value; (6) before every eighth input, a history of calls on the worker's own thread: 18 fixed inputs that are rejected by the lexer, rejected by the grammar with parentheses open, or accepted with a warning, mixed with four texts of the slice in a seed-dependent order - each call of the history is judged like any other input, and a failure that needs earlier calls is reported as the shortest history that reproduces it on a fresh thread (replay kind \"history\"). Oracle, per input, in a child process, in the dev and in the release build: parse returns; on Err, Display and Debug of the error return; on Ok, compile returns; on Ok, scheme(\"/\"), scheme(hostile path) and io_map() return. A panic, abort or fatal signal is a failure; so is an input that has no answer after 20 s of CPU time of its process (confirmed in a process of its own; the slowest input of the corpus takes `max_input_cpu_s`); expiry of the watchdog of the whole run is inconclusive (exit 2). Non-trivial: parsing got past the first token (Ok, or an error that names a keyword). Distinct: by input text.".into(),
         assumptions: vec!["deeper nesting than 64 and inputs beyond 4 KiB are outside the property as stated".into()],
         exhaustive: false,
     }
